@@ -1,0 +1,109 @@
+//! Observation and perturbation points for external runtime monitors.
+//!
+//! This module only exists when the crate is built with `--cfg jubako_verif`.
+//! It is not part of the public API of jubako.
+//!
+//! A monitor installs one process-global callback with [`set_hook`]. The library
+//! calls it at a few places ("points") with the values the monitor needs to shadow
+//! the state of the code. The callback may record the event, assert on it, or sleep /
+//! yield to perturb the schedule. Without a callback installed a point is a single
+//! relaxed load.
+
+use std::io::Read;
+use std::sync::Arc;
+use std::sync::OnceLock;
+
+#[derive(Debug, Clone, Copy, PartialEq, Eq)]
+pub enum Event {
+    /// A shared decode buffer has been allocated (`buf` = address of its storage).
+    BufCreated { buf: usize, size: usize },
+    /// The decoder thread wrote bytes in `[from, to)` of `buf`. Not yet published.
+    /// `len`/`cap`/`ptr` are the writer's view of its vector after the write.
+    ChunkWritten {
+        buf: usize,
+        from: usize,
+        to: usize,
+        len: usize,
+        cap: usize,
+        ptr: usize,
+    },
+    /// The decoder thread stored `len` as the published length (emitted under the lock).
+    Published { buf: usize, len: usize },
+    /// The decoder thread is leaving `decode_to_end` (normally or by error/unwind).
+    DecodeDone { buf: usize, ok: bool },
+    /// A reader is about to wait until `end` bytes are published; `seen` is the length it read before waiting.
+    WaitBegin { buf: usize, end: usize, seen: usize },
+    /// The condvar wait of a reader returned with published length `seen` (emitted under the lock).
+    WaitReturn { buf: usize, seen: usize },
+    /// A reader finished waiting for `end`; `seen` is the length published now.
+    WaitEnd { buf: usize, end: usize, seen: usize },
+    /// A reader builds a slice of `len` bytes on the shared buffer.
+    Slice { buf: usize, len: usize },
+
+    /// `VecCache::get`: slot already filled.
+    VecCacheHit { idx: usize },
+    /// `VecCache::get`: slot empty, value is going to be built.
+    VecCacheMiss { idx: usize },
+    /// `VecCache::get`: value built and `set` called (it may have lost a race).
+    VecCacheFilled { idx: usize },
+
+    /// `ContentPack::get_cluster` called (`cached` = number of clusters in the lru before the call).
+    ClusterGet { idx: u32, cached: usize },
+    /// `ContentPack::_get_cluster`: the cluster is parsed from the pack (cache miss).
+    ClusterMiss { idx: u32 },
+    /// `Cluster::build_plain_reader` entered / found the cluster already plain / installed a decoder.
+    BuildPlainBegin,
+    BuildPlainAlready,
+    BuildPlainInstalled,
+
+    /// `Container::get_pack`: slot state seen for `id`.
+    PackSlotHit { id: u16 },
+    PackSlotMiss { id: u16 },
+}
+
+type Hook = Box<dyn Fn(&Event) + Send + Sync>;
+
+static HOOK: OnceLock<Hook> = OnceLock::new();
+
+/// Install the process-global hook. Only the first call has an effect.
+pub fn set_hook(hook: Hook) -> bool {
+    HOOK.set(hook).is_ok()
+}
+
+#[inline]
+pub(crate) fn point(event: Event) {
+    if let Some(hook) = HOOK.get() {
+        hook(&event)
+    }
+}
+
+/// Emit `DecodeDone` when dropped, so that early returns and unwinding are seen too.
+pub(crate) struct DecodeDoneGuard {
+    pub buf: usize,
+    pub ok: bool,
+}
+
+impl Drop for DecodeDoneGuard {
+    fn drop(&mut self) {
+        point(Event::DecodeDone {
+            buf: self.buf,
+            ok: self.ok,
+        })
+    }
+}
+
+/// Build a [`crate::reader::ByteRegion`] of `size` bytes whose source is the crate's
+/// background decoder (`SeekableDecoder`) fed by `decoder`.
+///
+/// This drives the real length-publication protocol with an arbitrary `Read`
+/// implementation (a pure Rust one can be run under Miri or ThreadSanitizer, which
+/// cannot follow the C codecs).
+pub fn region_from_decoder<T: Read + Send + 'static>(
+    decoder: T,
+    size: usize,
+) -> crate::reader::ByteRegion {
+    use crate::bases::*;
+    let source: Arc<dyn Source> = Arc::new(SeekableDecoder::new(decoder, ASize::from(size)));
+    let reader = Reader::new_from_arc(source, Size::from(size));
+    reader.get_byte_slice(Offset::zero(), Size::from(size)).into()
+}
